@@ -9,10 +9,15 @@ def gen(rng, tier):
     for _ in range(300 if tier == "quick" else 8000):
         G, fam = common.random_connected_graph(rng, 1, 6, large_ok=True); n = G["n"]; big = rng.random() < 0.25
         D = common.random_divisor(rng, G, big=big); E = common.random_divisor(rng, G, big=big); F = common.random_divisor(rng, G)
-        kind = rng.choice(["same", "copy", "copy", "mult", "redistribute", "vset", "chips"])
+        kind = rng.choice(["same", "copy", "copy", "mult", "redistribute", "vset", "chips", "edgeset"])
         G2 = G; E2 = list(D)
         if kind == "mult" and G["edges"]:
             e = [list(x) for x in G["edges"]]; e[rng.randrange(len(e))][2] += rng.choice([1, 2]); G2 = dict(G); G2["edges"] = e
+        elif kind == "edgeset" and n >= 2:
+            # same vertices, one pair adjacent in one graph only
+            non = [(a, b) for a in range(n) for b in range(a + 1, n) if not any(x[0] == a and x[1] == b for x in G["edges"])]
+            if non and (rng.random() < 0.5 or len(G["edges"]) <= 1): G2 = common.mk_graph_like(G, [list(x) for x in G["edges"]] + [[non[0][0], non[0][1], 1]])
+            elif G["edges"]: G2 = common.mk_graph_like(G, [list(x) for x in G["edges"]][1:])
         elif kind == "redistribute":
             # even cycle with alternating multiplicities (a,b,a,b..) vs (b,a,b,a..): same adjacency, same valences, different multigraph
             m = rng.choice([4, 6]); a, b = rng.sample([1, 2, 3, 4], 2)
